@@ -85,10 +85,18 @@ func vNewBackendFull(s *zzmodel.Store, base uint64, cache int, wrap func(tso.TSO
 	}
 	b.asyncFifoRetry = retry.NewAsyncFifoRetry(b.coder, b.kv, b.metricCli, b.tso, b.getLatestInternalVal, b.notify, asyncRetryConfig)
 	go b.collectStorageWriteEvents()
-	go b.watcherHub.Stream(b.watchChan)
+	in := b.watchChan
+	if vStreamIn != nil {
+		in = vStreamIn(in)
+	}
+	go b.watcherHub.Stream(in)
 	go b.asyncFifoRetry.Run(context.Background())
 	return b
 }
+
+// vStreamIn (if set) is put between the sequencer's output channel and the fan-out goroutine by
+// vNewBackendFull: a harness can hold a batch between the event cache and the broadcast.
+var vStreamIn func(src chan []*proto.Event) chan []*proto.Event
 
 func vCoder() coder.Coder { return coder.NewNormalCoder() }
 
